@@ -223,6 +223,30 @@ def fixed_width_facts():
     return {"responsesUseFixedWidthFields": not bad, "lines": bad}
 
 
+def prefetch_lock_facts():
+    """SFTPFile._prefetch_lock is a plain (non-re-entrant) threading.Lock: no method that takes it
+    (`with self._prefetch_lock:`) calls, inside that block, itself or any other method that takes it."""
+    import paramiko.sftp_file as mod
+
+    cls = [n for n in ast.parse(inspect.getsource(mod)).body if isinstance(n, ast.ClassDef) and n.name == "SFTPFile"][0]
+    methods = {n.name: n for n in cls.body if isinstance(n, ast.FunctionDef)}
+
+    def lock_blocks(fn):
+        return [w for w in ast.walk(fn) if isinstance(w, ast.With) and any(
+            isinstance(i.context_expr, ast.Attribute) and i.context_expr.attr == "_prefetch_lock" for i in w.items)]
+
+    acquirers = {name for name, fn in methods.items() if lock_blocks(fn)}
+    bad = []
+    for name in acquirers:
+        for w in lock_blocks(methods[name]):
+            for st in w.body:
+                for c in ast.walk(st):
+                    if (isinstance(c, ast.Call) and isinstance(c.func, ast.Attribute) and isinstance(c.func.value, ast.Name)
+                            and c.func.value.id == "self" and c.func.attr in acquirers):
+                        bad.append((name, c.func.attr))
+    return {"prefetchLockNotReentered": not bad, "acquirers": sorted(acquirers), "bad": bad}
+
+
 def c28_generated_source():
     """lean/PV/Generated/C28.lean (shared by the C28 and C29 checks): request size constants and the lock-region
     fact about SFTPClient._async_request."""
@@ -235,9 +259,13 @@ def c28_generated_source():
             "/-- every use of self.request_number in _async_request (the id written into the packet, the "
             "registration in _expecting, the increment) lies inside the acquire/try/finally-release region "
             "of self._lock: allocating a request number and putting it into the packet is one atomic step -/\n"
-            "def idReadUnderLock : Bool := %s\nend PV.Generated.C28\n"
+            "def idReadUnderLock : Bool := %s\n"
+            "/-- SFTPFile._prefetch_lock (a plain threading.Lock) is never asked for by a method that already holds "
+            "it: no `with self._prefetch_lock:` block calls its own method or another one that takes the lock -/\n"
+            "def prefetchLockNotReentered : Bool := %s\nend PV.Generated.C28\n"
             % (sf.SFTPFile.MAX_REQUEST_SIZE, sf.SFTPFile._DEFAULT_BUFSIZE,
-               "true" if facts["idReadUnderLock"] else "false"))
+               "true" if facts["idReadUnderLock"] else "false",
+               "true" if prefetch_lock_facts()["prefetchLockNotReentered"] else "false"))
 
 
 def write_status_facts():
